@@ -128,6 +128,23 @@ def gen_mutants(prop):
     return muts, tests
 
 
+BASELINE_FAILS = set()
+
+
+def failing_tests(root, tests, env):
+    """ids of the tests that fail / error (some tests of the pinned suite fail on the unchanged tree, e.g. the three that need a network)"""
+    t = subprocess.run(["/venv/bin/python", "-m", "pytest", "-q", "-rfE", "-p", "no:cacheprovider", "--timeout=60"] +
+                       [x for x in tests if os.path.exists(os.path.join(root, x))],
+                       cwd=root, env=env, capture_output=True, text=True, timeout=400)
+    out = set()
+    for l in t.stdout.splitlines():
+        if l.startswith(("FAILED ", "ERROR ")):
+            out.add(l.split()[1])
+    if t.returncode not in (0, 1):
+        out.add(f"pytest-rc-{t.returncode}")
+    return out
+
+
 def run_one(prop, m, tests, budget_s, jobs):
     scratch = tempfile.mkdtemp(prefix="coba_amut_")
     try:
@@ -135,10 +152,7 @@ def run_one(prop, m, tests, budget_s, jobs):
         open(os.path.join(scratch, m["file"]), "w").write(m["new_src"])
         env = dict(os.environ, PYTHONPATH=scratch, PYTHONWARNINGS="ignore", PYTHONDONTWRITEBYTECODE="1")
         try:
-            t = subprocess.run(["/venv/bin/python", "-m", "pytest", "-q", "-x", "-p", "no:cacheprovider", "--timeout=60"] +
-                               [x for x in tests if os.path.exists(os.path.join(scratch, x))],
-                               cwd=scratch, env=env, capture_output=True, text=True, timeout=240)
-            tests_ok = t.returncode == 0
+            tests_ok = failing_tests(scratch, tests, env) <= BASELINE_FAILS
         except subprocess.TimeoutExpired:
             tests_ok = False
         if not tests_ok:
@@ -168,7 +182,13 @@ def main():
         # a deterministic spread over the list
         muts.sort(key=lambda m: hashlib.sha1(m["id"].encode()).hexdigest())
         muts = muts[:int(opt["--max"])]
-    print(f"{prop}: {len(muts)} mutants", flush=True)
+    base = tempfile.mkdtemp(prefix="coba_amut_base_")
+    try:
+        shutil.copytree("/repo/coba", os.path.join(base, "coba"), ignore=shutil.ignore_patterns("__pycache__"))
+        BASELINE_FAILS.update(failing_tests(base, tests, dict(os.environ, PYTHONPATH=base, PYTHONWARNINGS="ignore", PYTHONDONTWRITEBYTECODE="1")))
+    finally:
+        shutil.rmtree(base, ignore_errors=True)
+    print(f"{prop}: {len(muts)} mutants; tests failing on the unchanged tree: {sorted(BASELINE_FAILS)}", flush=True)
     res = []
     t0 = time.time()
     def job(m):
